@@ -113,6 +113,7 @@ fn filters(ctx: &Ctx, which: usize, rep: &mut Report) {
                     pdatastructs::verif::set_kick_budget(Some(8));
                     for &n in &lens {
                         while done < n {
+                            beat();
                             let _ = Flt::insert(&mut f, r.next());
                             if done % 3 == 2 {
                                 let _ = Flt::delete(&mut f, r.next());
@@ -184,6 +185,7 @@ fn filters(ctx: &Ctx, which: usize, rep: &mut Report) {
                     for &n in &lens {
                         let n = n.min(cap);
                         while done < n {
+                            beat();
                             let _ = Flt::insert(&mut f, r.next());
                             done += 1;
                         }
